@@ -104,7 +104,7 @@ def fam_vf(rng, seed, quick):
     scs = []; C = VC
     base = ['B', 'C', 'D', 'E', 'I', 'N', 'K', 'T']
     npg = {'B': 45, 'C': 9, 'D': 9, 'E': 40, 'I': 9, 'N': 12, 'K': 60, 'T': 12}
-    for i in range(120 if quick else 3000):
+    for i in range(120 if quick else 2400):
         b = base[i % len(base)]; key = f'L{i}'; C.FILES[key] = C.FILES[b]
         pre = VF.damage_lines(rng, key, npg[b], rng.choice([1, 1, 2, 3]))
         s = VF.fam_damaged(rng, key, f'leak-dmg{i}-{b}', rng.choice(['seek', 'seek', 'stream', 'test'])); s.pre = pre
@@ -125,14 +125,14 @@ def check_c13(pid, tier, seed, replay=None):
         return P.replay(pid, replay, prog, *tr)
     t0 = time.time(); rng = random.Random(seed); q = tier == 'quick'
     bindir = vlib.build('asan')
-    mc, problems, orders = model_and_orders(seed, 60 if q else 400)
+    mc, problems, orders = model_and_orders(seed, 60 if q else 1500)
     extra_viol = []
     for kind, name, txt in problems:
         if kind == 'design':
             os.makedirs(vlib.REPLAY, exist_ok=True); p = os.path.join(vlib.REPLAY, f'{pid}-design-{name}.txt'); open(p, 'w').write(txt)
             extra_viol.append(dict(replay=p, what='design-level invariant violated in Own_MC'))
     enc = [enc_from_order(rng, i, h) for i, h in enumerate(orders)] + fam_templates(rng, not q)
-    dec = fam_pdh(rng, 150 if q else 5000, orders)
+    dec = fam_pdh(rng, 150 if q else 20000, orders)
     import checks.syn as SY
     syn_cases, _, _ = SY.gen_cases(('mutations', 'shapes'))       # set-up headers refused (or accepted) at every part of the syntax, written by TLC from Setup.tla
     dec += SY.build_scenarios(rng, syn_cases, 1)
@@ -142,7 +142,7 @@ def check_c13(pid, tier, seed, replay=None):
         f4 = ex.submit(P.run_batch, pid + 'c', cms, bindir, 'cmh', *CM.TRACE, nproc=3)
         f1 = ex.submit(P.run_batch, pid + 'e', enc, bindir, 'ench', *ES.TRACE, nproc=6)
         f2 = ex.submit(P.run_batch, pid + 'd', dec, bindir, 'pdh', *PK.TRACE, prelude=PK.prelude([0, 1, 2, 4]), nproc=5)
-        f3 = ex.submit(VC.run_batch, pid + 'v', tier, vfs, bindir, nproc=5)
+        f3 = ex.submit(VC.run_batch, pid + 'v', tier, vfs, bindir, nproc=5 if q else 12)
         r1, r2, r3, r4 = f1.result(), f2.result(), f3.result(), f4.result()
     res = dict(events=0, viols=[], drifts=[], states=0, transitions=0, infra=[], scn_events={}, traces=0, harness_s=0, tlc_s=0)
     for r in (r1, r2, r3, r4):
